@@ -14,23 +14,47 @@ def PyArg.posInt (v : PyArg) : Prop := ∃ z : Int, 0 < z ∧ v.toCount = .int z
 positive integers and None are accepted. -/
 theorem sspor_ctor_spec (b : BasisSt) (v : PyArg) :
     (Sspor.init b (some v.toCount)).isSome ↔ v.posInt := by
-  sorry
+  unfold PyArg.posInt
+  cases v <;> simp [PyArg.toCount, Sspor.init]
+  all_goals first
+    | done
+    | (constructor
+       · intro h; split at h <;> simp_all
+       · intro h; simp_all)
 
 /-- **C19 (SSPOR setter).** On a fitted model every value outside `1 .. n_features` – zero, negative,
 too large, non-integer – raises ValueError and leaves the whole model unchanged. -/
 theorem sspor_set_invalid (st : Sspor) (r : List Nat) (hr : st.ranking = some r) (v : PyCount)
     (hinv : ¬ ∃ k : Nat, v = .int k ∧ 0 < k ∧ k ≤ r.length) :
     st.setN v = (st, some .valueError) := by
-  sorry
+  unfold Sspor.setN
+  rw [hr]
+  cases v with
+  | other => rfl
+  | int z =>
+    simp only
+    split
+    · rfl
+    · split
+      · rfl
+      · exfalso
+        apply hinv
+        refine ⟨z.toNat, ?_, ?_, ?_⟩
+        · congr 1; omega
+        · omega
+        · omega
 
 /-- **C19 (unfitted SSPOR).** The setter raises NotFittedError and changes nothing. -/
 theorem sspor_set_unfitted (st : Sspor) (v : PyCount) (h : st.ranking = none) :
     st.setN v = (st, some .notFitted) := by
-  sorry
+  unfold Sspor.setN
+  rw [h]
 
 theorem sspor_selected_unfitted (st : Sspor) (h : st.ranking = none) :
     st.selected = .error .notFitted ∧ st.allSensors = .error .notFitted := by
-  sorry
+  unfold Sspor.selected Sspor.allSensors
+  rw [h]
+  exact ⟨rfl, rfl⟩
 
 /-- **C19 (SSPOR.update_n_basis_modes).** Non-positive / non-integer mode counts: ValueError, nothing
 changed; more modes than the basis holds without data: ValueError, nothing changed; more modes than
@@ -38,17 +62,42 @@ examples: ValueError, nothing changed. -/
 theorem sspor_update_invalid (st : Sspor) (v : PyCount) (x : Option (Nat × Nat)) (o : List Nat)
     (hv : v = .other ∨ ∃ z : Int, v = .int z ∧ z ≤ 0) :
     st.updateModes v x o = (st, some .valueError) := by
-  sorry
+  unfold Sspor.updateModes
+  rcases hv with rfl | ⟨z, rfl, hz⟩
+  · rfl
+  · simp [hz]
 
 theorem sspor_update_needs_data (st : Sspor) (k : Nat) (o : List Nat) (hk : 0 < k)
     (hmore : st.basis.fitted = none ∨ ∀ nm, st.basis.nModes = some nm → nm < k) :
     st.updateModes (.int k) none o = (st, some .valueError) := by
-  sorry
+  unfold Sspor.updateModes
+  have h1 : ¬ ((k : Int) ≤ 0) := by omega
+  have h2 : (st.basis.fitted.isSome && (match st.basis.nModes with | some nm => decide (k ≤ nm) | none => false)) = false := by
+    rcases hmore with h | h
+    · simp [h]
+    · cases hm : st.basis.nModes with
+      | none => simp
+      | some nm => have := h nm hm; simp; intro _; omega
+  simp only [h1, if_false, Int.toNat_natCast]
+  simp
+  intro a b; simp [a] at h2
+  exact absurd (b.symm.trans h2) (by decide)
 
 theorem sspor_update_too_many (st : Sspor) (k ne nf : Nat) (o : List Nat) (hk : 0 < k)
     (hmore : st.basis.fitted = none ∨ ∀ nm, st.basis.nModes = some nm → nm < k) (hne : ne < k) :
     st.updateModes (.int k) (some (ne, nf)) o = (st, some .valueError) := by
-  sorry
+  unfold Sspor.updateModes
+  have h1 : ¬ ((k : Int) ≤ 0) := by omega
+  have h2 : (st.basis.fitted.isSome && (match st.basis.nModes with | some nm => decide (k ≤ nm) | none => false)) = false := by
+    rcases hmore with h | h
+    · simp [h]
+    · cases hm : st.basis.nModes with
+      | none => simp
+      | some nm => have := h nm hm; simp; intro _; omega
+  simp only [h1, if_false, Int.toNat_natCast]
+  simp [hne]
+  intro a b; simp [a] at h2
+  exact absurd (b.symm.trans h2) (by decide)
 
 /-- **C19 (SSPOC.update_sensors).** Negative, too large and non-integer sensor counts raise ValueError
 and leave the model unchanged; so does a call with neither argument; an unfitted model raises
@@ -57,23 +106,35 @@ theorem sspoc_update_invalid (st : Sspoc) (hf : st.fitted = true) (v : PyCount) 
     (xy : Bool) (mag : List Rat)
     (hinv : v = .other ∨ ∃ z : Int, v = .int z ∧ (z < 0 ∨ z > st.nFeat)) :
     st.updateSensors (some v) thr xy mag none = (st, some .valueError) := by
-  sorry
+  unfold Sspoc.updateSensors
+  simp only [hf]
+  rcases hinv with rfl | ⟨z, rfl, hz⟩
+  · rfl
+  · simp only [Bool.not_true, Bool.false_eq_true, if_false]
+    split
+    · rfl
+    · split
+      · rfl
+      · omega
 
 theorem sspoc_update_neither (st : Sspoc) (hf : st.fitted = true) (xy : Bool) (mag : List Rat) :
     st.updateSensors none none xy mag none = (st, some .valueError) := by
-  sorry
+  unfold Sspoc.updateSensors
+  simp [hf]
 
 theorem sspoc_update_unfitted (st : Sspoc) (hf : st.fitted = false) (n : Option PyCount)
     (thr : Option Rat) (xy : Bool) (mag : List Rat) :
     st.updateSensors n thr xy mag none = (st, some .notFitted) := by
-  sorry
+  unfold Sspoc.updateSensors
+  simp [hf]
 
 /-- **C19 (basis constructors).** Accepted exactly for a positive builtin integer (or None where the
 class allows it); every other value raises ValueError. -/
 theorem basisCtor_spec (allowNone : Bool) (v : PyArg) :
     (basisCtor allowNone v = .ok ↔ ((v = .none ∧ allowNone = true) ∨ (∃ z : Int, 0 < z ∧ v = .pyInt z))) ∧
       (basisCtor allowNone v ≠ .ok → basisCtor allowNone v = .raises .valueError) := by
-  sorry
+  cases v <;> cases allowNone <;> simp [basisCtor, PyArg.builtinInt?] <;>
+    (try split) <;> simp_all
 
 /-- **C19 (matrix_representation / matrix_inverse).** Unfitted: NotFittedError whatever the value;
 fitted: None or an integer in `1 .. n_basis_modes` is accepted, everything else – zero, negative,
@@ -83,19 +144,22 @@ theorem basisRep_spec (fitted : Bool) (nm : Nat) (v : PyArg) :
     (fitted = true →
       (basisRep fitted nm v = .ok ↔ (v = .none ∨ ∃ z : Int, v.integral? = some z ∧ 0 < z ∧ z ≤ nm)) ∧
       (basisRep fitted nm v ≠ .ok → basisRep fitted nm v = .raises .valueError)) := by
-  sorry
+  cases fitted <;> cases v <;> simp [basisRep, PyArg.integral?]
+  all_goals
+    rename_i z
+    by_cases h1 : z ≤ 0 <;> by_cases h2 : (nm : Int) < z <;> simp [h1, h2] <;> omega
 
 /-- **C19 (measurement arrays).** Unfitted: NotFittedError; wrong type or wrong width: ValueError. -/
 theorem predict_guard_spec (fitted isNd : Bool) (width ns : Nat) :
     ssporPredictGuard fitted isNd width ns =
       (if fitted = false then .raises .notFitted
        else if isNd = true ∧ width = ns then .ok else .raises .valueError) := by
-  sorry
+  cases fitted <;> cases isNd <;> simp [ssporPredictGuard, validateInput] <;> split <;> simp_all
 
 theorem full_state_guard_spec (fitted : Bool) (width nf : Nat) :
     ssporFullStateGuard fitted width nf =
       (if fitted = false then .raises .notFitted else if width = nf then .ok else .raises .valueError) := by
-  sorry
+  cases fitted <;> simp [ssporFullStateGuard] <;> split <;> simp_all
 
 /-- **C19 (cost vectors).** Non-1-D cost arrays are rejected by the constructor, mismatched lengths by fit. -/
 theorem ccqr_costs_spec (ndim len : Option Nat) (n : Nat) :
@@ -103,18 +167,25 @@ theorem ccqr_costs_spec (ndim len : Option Nat) (n : Nat) :
       (ccqrCtor ndim ≠ .ok → ccqrCtor ndim = .raises .valueError) ∧
       (ccqrFit len n = .ok ↔ (len = none ∨ len = some n)) ∧
       (ccqrFit len n ≠ .ok → ccqrFit len n = .raises .valueError) := by
-  sorry
+  unfold ccqrCtor ccqrFit
+  refine ⟨?_, ?_, ?_, ?_⟩ <;> (try cases ndim) <;> (try cases len) <;> simp <;> (try split) <;> simp_all
 
 /-- **C19 (constraint option).** Exactly the four known names are accepted; every other string raises
 NotImplementedError. -/
 theorem gqr_option_spec (name : String) :
     gqrOption name = (if name = "" ∨ name = "max_n" ∨ name = "exact_n" ∨ name = "predetermined" then .ok
       else .raises .notImplemented) := by
-  sorry
+  rfl
 
 /-- **C19 (box bounds).** Contradictory bounds raise ValueError. -/
 theorem box_contradictory (n : Nat) (hn : 0 < n) (xmin xmax ymin ymax : Rat) (nx ny : Bool)
     (h : xmin ≥ xmax ∨ ymin ≥ ymax) : boxGuard n true xmin xmax ymin ymax nx ny = .raises .valueError := by
-  sorry
+  unfold boxGuard
+  have : n ≠ 0 := by omega
+  simp only [this, if_false, Bool.not_true, Bool.false_eq_true]
+  rcases h with h | h
+  · simp [h]
+  · simp only [h, if_true]
+    split <;> rfl
 
 end PsVerif
